@@ -149,7 +149,7 @@ impl Property for C17S {
             stack_off: if rng.chance(1, 2) { 0 } else { 4 * rng.below(64) as u16 },
         };
         let est = super::c10::estimate_iters(&guest);
-        Scn { guest, cfg: SysCfg { wait_start: false, clock: ClockModel::Fast, clock_seed: 0, step_cap: est * 5 + 100_000 } }
+        Scn { guest, cfg: SysCfg { wait_start: false, clock: ClockModel::Fast, clock_seed: 0, step_cap: est * 5 + 100_000, print_msgs: false } }
     }
 
     fn execute(scn: &Scn, stats: &mut Stats) -> Verdict {
